@@ -51,6 +51,9 @@ def run_specs(helpers, timeout=60):
     for name, txt, dt in results:
         info = dict(engine="crosshair", spec=name, seconds=round(dt, 1))
         acc.inc("crosshair_conditions")
+        if "ImportError" in txt or "cannot import name" in txt:
+            acc.inc("E2_skipped_anchor_not_found")       # helper renamed / inlined: nothing to check here
+            continue
         if name.startswith("_spec_"):
             if "Confirmed over all paths" in txt:
                 acc.concrete(f"E2.{name}.confirmed_over_all_paths", True)
